@@ -6,6 +6,21 @@ props = [json.loads(l) for l in open(os.path.join(V, "properties.jsonl"))]
 
 # property -> (level text, level note, technique, design_ref)
 CLAIMED = {
+ "C17": ("TLC explores the attribute parser (Opts.tla: one ParseOneOpt step per option token, EndOfOpts, ApplyVariantFallbacks) over all "
+         "well-formed option lists with distinct keys per target, both macro names and both feature settings, and checks that the effective "
+         "options are constant on every metamorphic pair of the statement (bare=true, false=omitted, order, export-variant, unimock-feature) "
+         "and that explicit values survive fallbacks. Every invocation of every pair is expanded by the real macro (feature-on and feature-off "
+         "crates); TLC compares the recorded output token streams pairwise (Req!C17) and judges per-target acceptance of every single option token.",
+         "bounded (<= 2 options quick / 3 thorough); acceptance table transcribed from src/lib.rs docs; token equality incl. spacing; trusts TLC, hook",
+         "TLA+ model of the option parser + fallbacks checked by TLC for the metamorphic relations; exhaustive replay of all pairs through the real macro with TLC comparing recorded expansions",
+         "7/C17"),
+ "C10": ("TLC runs every point of the full lattice (648 points) through the modelled front end and mock-attribute decisions and checks Level 1 "
+         "(Req!C10: which derivations are attached, gated iff not exporting, and what non-test / test builds contain). Every point is expanded by "
+         "the real macro in a feature-on and a feature-off crate, each built and run both as binary (not(test)) and as test harness (cfg(test)); "
+         "TLC validates the attribute list of the emitted trait and the observed presence of the unimock API / Unimock impl and the mockall struct in each build.",
+         "the lattice is finite and fully enumerated; mock presence is observed through name resolution / trait-availability probes; feature-off points that name ::entrait::__unimock are observed at attribute level only",
+         "TLA+ model of option fallbacks and mock-attribute emission model-checked over the whole lattice + exhaustive replay in 4 build configurations with TLC trace validation",
+         "7/C10"),
  "C08": ("TLC explores the item-splitting cursor machine (Items.tla: BeginItem, ParseSigThenBodyOrSemi, ScanToBraceOrSemi, "
          "EatTrailingSemis) over every module body of up to N items from a 37-template catalogue with ground-truth labels and checks "
          "methods-found = ground truth; every body is expanded by the real macro, compiled with a parent-scope client that names the "
